@@ -44,7 +44,7 @@ def main() -> int:
     spec_failures, disagreements = [], []
     dist = {"statements": 0, "schemas": [], "mechanisms": {"scoped": 0, "environment": 0}, "quoted_dotted": 0}
     n = 110 if quick else 2000
-    stmts = [astgen.gen_stmt(r, r.choice([0, 1, 2])) for _ in range(n)]
+    stmts = astgen.gen_batch(r, n, (0, 1, 2), shapes=30 if quick else 300)
     for S in ("dflt", "s1"):
         dist["schemas"].append(S)
         spec = sqltie.spec_strings(stmts, ds=S)
